@@ -187,19 +187,24 @@ func locate(d D, lc bool, tf string, exp *SV, got data.Value, indir int) string 
 	return leaf()
 }
 
-// panicFeature shrinks a panicking descriptor to a minimal panicking
-// sub-descriptor and names it.
-func panicFeature(d D, o data.StructOptions) string {
+// shrinkPanic returns a minimal sub-descriptor of d on which the converter
+// still panics.
+func shrinkPanic(d D, o data.StructOptions) D {
 	for _, k := range kids(d) {
 		rv, err := build(k)
 		if err != nil {
 			continue
 		}
 		if _, p := convert(o, toArg(rv)); p != nil {
-			return panicFeature(k, o)
+			return shrinkPanic(k, o)
 		}
 	}
-	return "panic:" + descKind(d)
+	return d
+}
+
+// panicFeature names the minimal panicking sub-descriptor.
+func panicFeature(d D, o data.StructOptions) string {
+	return "panic:" + descKind(shrinkPanic(d, o))
 }
 
 // valFeature names a Soy value for the signatures of the value laws.
